@@ -94,7 +94,7 @@ impl Sanitizer {
         let mut result = input.to_string();
 
         if self.lowercase {
-            result = result.to_lowercase();
+            result = result.to_ascii_lowercase();
         }
 
         result = self.replace_non_alphanumeric(&result);
@@ -104,7 +104,11 @@ impl Sanitizer {
         }
 
         if let Some(max_len) = self.max_length {
-            result.truncate(max_len);
+            let mut end = max_len.min(result.len());
+            while !result.is_char_boundary(end) {
+                end -= 1;
+            }
+            result.truncate(end);
         }
 
         if let Some(sep) = &self.separator {
@@ -148,7 +152,7 @@ impl Sanitizer {
         let mut last_was_sep = false;
 
         for ch in input.chars() {
-            if ch.is_alphanumeric() {
+            if ch.is_ascii_alphanumeric() {
                 result.push(ch);
                 last_was_sep = false;
             } else if !last_was_sep {
